@@ -72,7 +72,9 @@ def campaign(c):
     # directed: strings carried across lines
     for a, b in [('f("a"', '"b");'), ('"a"', '"b" "c" ;'), ('x("|41 4"', '"2|");'), ('f(""', ');'), ('"only"', ''), ('f("a" // c', '"b")')]:
         check(c, [a, b, ';'], 'carry')
-    # direct probe of the statement (the Spec reproduces the implementation here, see theorem pending_empty_lost)
+    for lines in [['"only"'], ['f(1);', '"junk"'], ['f(1);', '""'], ['""', '', '  // c'], ['f("a"', '"b"'], ['f(1);']]:
+        check(c, lines, 'eof')
+    # direct probe of the statement (theorem pending_empty_kept)
     hi = c.harness.ask('lexlines ' + ' '.join(sh_hex(l.encode()) for l in ['f(""', ');']))
     if 'str:' not in hi:
         c.violation('lex:empty-carry', 'an empty string literal carried across a line break is lost: f("" <newline> ); lexes without a string token', dict(lines=['f(""', ');']))
